@@ -1,3 +1,4 @@
+import RSV.Props.C05bitfield
 import RSV.Proofs.Memo
 import Mathlib.Algebra.Field.Rat
 
